@@ -19,7 +19,7 @@
 (* A world W fixes the routing matrix, the vehicle and the job palette:    *)
 (*  [d, sloc, closed, eloc, shiftEnd, cap, fixed, cd, ct, jobs]            *)
 (* a palette job: [kind, loc, dur, tws, q, value] with kind in             *)
-(*  "del" "pick" "svc" (single task, static demand) or a pair              *)
+(*  "del" "pick" "rep" "svc" (single task, static demand) or a pair        *)
 (*  [kind |-> "pd", p: [loc,dur,tws], d: [loc,dur,tws], q, value]          *)
 (* an activity of a tour: [j, part, w]: palette index, 0 single / 1 pickup *)
 (*  / 2 delivery part, index of the time window the activity was inserted  *)
@@ -41,8 +41,10 @@ I_Task(W, a) == LET jb == W.jobs[a.j] IN
 I_Loc(W, a) == LET t == I_Task(W, a) IN IF "locs" \in DOMAIN t THEN t.locs[a.w] ELSE t.loc
 I_Dur(W, a) == I_Task(W, a).dur
 I_Tw(W, a) == I_Task(W, a).tws[a.w]
-I_StaticDel(W, a) == IF W.jobs[a.j].kind = "del" THEN W.jobs[a.j].q ELSE 0
-I_StaticPick(W, a) == IF W.jobs[a.j].kind = "pick" THEN W.jobs[a.j].q ELSE 0
+\* "rep" (replacement): a static delivery and a static pickup of the same amount in one activity - the delivered part is on board
+\* from the start up to the activity, the collected part from the activity to the end (the net change at the activity is 0)
+I_StaticDel(W, a) == IF W.jobs[a.j].kind \in {"del", "rep"} THEN W.jobs[a.j].q ELSE 0
+I_StaticPick(W, a) == IF W.jobs[a.j].kind \in {"pick", "rep"} THEN W.jobs[a.j].q ELSE 0
 I_Dyn(W, a) == IF W.jobs[a.j].kind = "pd" THEN (IF a.part = 1 THEN W.jobs[a.j].q ELSE 0 - W.jobs[a.j].q) ELSE 0
 I_Change(W, a) == I_StaticPick(W, a) - I_StaticDel(W, a) + I_Dyn(W, a)
 I_EndLoc(W) == IF W.closed THEN W.eloc ELSE W.sloc
